@@ -27,6 +27,8 @@ pub struct IntOp {
     /// element kind of the right operand (differs from the vector's for shifts)
     pub rhs_elem: Elem,
     pub is_shift: bool,
+    /// whole-operation reference (reductions): replaces the lane-wise primitive model when present
+    pub fold: Option<VecOp>,
     pub vec: VecOp,
     pub prim: LaneOp,
 }
@@ -34,23 +36,23 @@ pub struct IntOp {
 macro_rules! binop {
     ($v:ident, $T:ident, $E:ty, $N:expr, $tr:ident, $m:ident, $am:ident, $sym:tt) => {
         // vector ∘ vector
-        $v.push(IntOp { name: format!("<{} as {}>::{}", stringify!($T), stringify!($tr), stringify!($m)), ty: TyId::$T, rhs_n: $N, lhs_scalar: false, rhs_elem: <$E as Scalar>::KIND, is_shift: false,
+        $v.push(IntOp { name: format!("<{} as {}>::{}", stringify!($T), stringify!($tr), stringify!($m)), ty: TyId::$T, rhs_n: $N, lhs_scalar: false, rhs_elem: <$E as Scalar>::KIND, is_shift: false, fold: None,
             vec: |a, b| { let (x, y) = (mk::<$T>(a), mk::<$T>(b)); bits(&(x $sym y)) },
             prim: |a, b| (<$E>::from_bits64(a) $sym <$E>::from_bits64(b)).to_bits64() });
         // vector ∘ &vector (reference forms share the implementation but are separate impls)
-        $v.push(IntOp { name: format!("<{} as {}<&{}>>::{}", stringify!($T), stringify!($tr), stringify!($T), stringify!($m)), ty: TyId::$T, rhs_n: $N, lhs_scalar: false, rhs_elem: <$E as Scalar>::KIND, is_shift: false,
+        $v.push(IntOp { name: format!("<{} as {}<&{}>>::{}", stringify!($T), stringify!($tr), stringify!($T), stringify!($m)), ty: TyId::$T, rhs_n: $N, lhs_scalar: false, rhs_elem: <$E as Scalar>::KIND, is_shift: false, fold: None,
             vec: |a, b| { let (x, y) = (mk::<$T>(a), mk::<$T>(b)); bits(&(&x $sym &y)) },
             prim: |a, b| (<$E>::from_bits64(a) $sym <$E>::from_bits64(b)).to_bits64() });
         // vector ∘ scalar
-        $v.push(IntOp { name: format!("<{} as {}<{}>>::{}", stringify!($T), stringify!($tr), stringify!($E), stringify!($m)), ty: TyId::$T, rhs_n: 1, lhs_scalar: false, rhs_elem: <$E as Scalar>::KIND, is_shift: false,
+        $v.push(IntOp { name: format!("<{} as {}<{}>>::{}", stringify!($T), stringify!($tr), stringify!($E), stringify!($m)), ty: TyId::$T, rhs_n: 1, lhs_scalar: false, rhs_elem: <$E as Scalar>::KIND, is_shift: false, fold: None,
             vec: |a, b| { let x = mk::<$T>(a); bits(&(x $sym <$E>::from_bits64(b[0]))) },
             prim: |a, b| (<$E>::from_bits64(a) $sym <$E>::from_bits64(b)).to_bits64() });
         // scalar ∘ vector
-        $v.push(IntOp { name: format!("<{} as {}<{}>>::{}", stringify!($E), stringify!($tr), stringify!($T), stringify!($m)), ty: TyId::$T, rhs_n: $N, lhs_scalar: true, rhs_elem: <$E as Scalar>::KIND, is_shift: false,
+        $v.push(IntOp { name: format!("<{} as {}<{}>>::{}", stringify!($E), stringify!($tr), stringify!($T), stringify!($m)), ty: TyId::$T, rhs_n: $N, lhs_scalar: true, rhs_elem: <$E as Scalar>::KIND, is_shift: false, fold: None,
             vec: |a, b| { let y = mk::<$T>(b); bits(&(<$E>::from_bits64(a[0]) $sym y)) },
             prim: |a, b| (<$E>::from_bits64(a) $sym <$E>::from_bits64(b)).to_bits64() });
         // compound assignment
-        $v.push(IntOp { name: format!("<{} as {}Assign>::{}", stringify!($T), stringify!($tr), stringify!($am)), ty: TyId::$T, rhs_n: $N, lhs_scalar: false, rhs_elem: <$E as Scalar>::KIND, is_shift: false,
+        $v.push(IntOp { name: format!("<{} as {}Assign>::{}", stringify!($T), stringify!($tr), stringify!($am)), ty: TyId::$T, rhs_n: $N, lhs_scalar: false, rhs_elem: <$E as Scalar>::KIND, is_shift: false, fold: None,
             vec: |a, b| { let (mut x, y) = (mk::<$T>(a), mk::<$T>(b)); $am(&mut x, y); bits(&x) },
             prim: |a, b| (<$E>::from_bits64(a) $sym <$E>::from_bits64(b)).to_bits64() });
     };
@@ -59,11 +61,11 @@ macro_rules! binop {
 macro_rules! shift {
     ($v:ident, $T:ident, $E:ty, $N:expr, $($S:ty),*) => {$(
         $v.push(IntOp { name: format!("<{} as Shl<{}>>::shl", stringify!($T), stringify!($S)), ty: TyId::$T, rhs_n: 1, lhs_scalar: false,
-            rhs_elem: <$S as Scalar>::KIND, is_shift: true,
+            rhs_elem: <$S as Scalar>::KIND, is_shift: true, fold: None,
             vec: |a, b| { let x = mk::<$T>(a); bits(&(x << <$S>::from_bits64(b[0]))) },
             prim: |a, b| (<$E>::from_bits64(a) << <$S>::from_bits64(b)).to_bits64() });
         $v.push(IntOp { name: format!("<{} as Shr<{}>>::shr", stringify!($T), stringify!($S)), ty: TyId::$T, rhs_n: 1, lhs_scalar: false,
-            rhs_elem: <$S as Scalar>::KIND, is_shift: true,
+            rhs_elem: <$S as Scalar>::KIND, is_shift: true, fold: None,
             vec: |a, b| { let x = mk::<$T>(a); bits(&(x >> <$S>::from_bits64(b[0]))) },
             prim: |a, b| (<$E>::from_bits64(a) >> <$S>::from_bits64(b)).to_bits64() });
     )*};
@@ -71,7 +73,7 @@ macro_rules! shift {
 macro_rules! lane_method {
     ($v:ident, $T:ident, $E:ty, $N:expr, $($m:ident),*) => {$(
         $v.push(IntOp { name: format!("{}::{}", stringify!($T), stringify!($m)), ty: TyId::$T, rhs_n: $N, lhs_scalar: false,
-            rhs_elem: <$E as Scalar>::KIND, is_shift: false,
+            rhs_elem: <$E as Scalar>::KIND, is_shift: false, fold: None,
             vec: |a, b| { let (x, y) = (mk::<$T>(a), mk::<$T>(b)); bits(&x.$m(y)) },
             prim: |a, b| <$E>::from_bits64(a).$m(<$E>::from_bits64(b)).to_bits64() });
     )*};
@@ -80,11 +82,87 @@ macro_rules! checked_method {
     // `None` is treated like a panic on both sides: the vector op must be None iff some lane's primitive is None
     ($v:ident, $T:ident, $E:ty, $N:expr, $($m:ident),*) => {$(
         $v.push(IntOp { name: format!("{}::{}", stringify!($T), stringify!($m)), ty: TyId::$T, rhs_n: $N, lhs_scalar: false,
-            rhs_elem: <$E as Scalar>::KIND, is_shift: false,
+            rhs_elem: <$E as Scalar>::KIND, is_shift: false, fold: None,
             vec: |a, b| { let (x, y) = (mk::<$T>(a), mk::<$T>(b)); bits(&x.$m(y).expect("checked operation returned None")) },
             prim: |a, b| <$E>::from_bits64(a).$m(<$E>::from_bits64(b)).expect("checked operation returned None").to_bits64() });
     )*};
 }
+
+macro_rules! tryfrom {
+    ($v:ident, $D:ident, $S:ident) => {
+        $v.push(IntOp { name: format!("<{} as TryFrom<{}>>::try_from", stringify!($D), stringify!($S)), ty: TyId::$S, rhs_n: 0, lhs_scalar: false,
+            rhs_elem: <<$S as GlamTy>::E as Scalar>::KIND, is_shift: false, fold: None,
+            vec: |a, _| bits(&<$D as TryFrom<$S>>::try_from(mk::<$S>(a)).expect("vector TryFrom failed")),
+            prim: |a, _| <<$D as GlamTy>::E as TryFrom<<$S as GlamTy>::E>>::try_from(<<$S as GlamTy>::E>::from_bits64(a)).expect("primitive TryFrom failed").to_bits64() });
+    };
+}
+macro_rules! shiftv {
+    ($v:ident, $T:ident, $R:ident, $tr:ident, $sym:tt) => {
+        $v.push(IntOp { name: format!("<{} as {}<{}>>", stringify!($T), stringify!($tr), stringify!($R)), ty: TyId::$T, rhs_n: <$T as GlamTy>::N, lhs_scalar: false,
+            rhs_elem: <<$R as GlamTy>::E as Scalar>::KIND, is_shift: true, fold: None,
+            vec: |a, b| bits(&(mk::<$T>(a) $sym mk::<$R>(b))),
+            prim: |a, b| (<<$T as GlamTy>::E>::from_bits64(a) $sym <<$R as GlamTy>::E>::from_bits64(b)).to_bits64() });
+    };
+}
+macro_rules! mixed {
+    ($v:ident, $T:ident, $R:ident, $m:ident) => {
+        $v.push(IntOp { name: format!("{}::{}", stringify!($T), stringify!($m)), ty: TyId::$T, rhs_n: <$T as GlamTy>::N, lhs_scalar: false,
+            rhs_elem: <<$R as GlamTy>::E as Scalar>::KIND, is_shift: false, fold: None,
+            vec: |a, b| bits(&mk::<$T>(a).$m(mk::<$R>(b))),
+            prim: |a, b| <<$T as GlamTy>::E>::from_bits64(a).$m(<<$R as GlamTy>::E>::from_bits64(b)).to_bits64() });
+    };
+}
+macro_rules! mixed_checked {
+    ($v:ident, $T:ident, $R:ident, $m:ident) => {
+        $v.push(IntOp { name: format!("{}::{}", stringify!($T), stringify!($m)), ty: TyId::$T, rhs_n: <$T as GlamTy>::N, lhs_scalar: false,
+            rhs_elem: <<$R as GlamTy>::E as Scalar>::KIND, is_shift: false, fold: None,
+            vec: |a, b| bits(&mk::<$T>(a).$m(mk::<$R>(b)).expect("checked operation returned None")),
+            prim: |a, b| <<$T as GlamTy>::E>::from_bits64(a).$m(<<$R as GlamTy>::E>::from_bits64(b)).expect("checked operation returned None").to_bits64() });
+    };
+}
+macro_rules! cast {
+    ($v:ident, $T:ident, $D:ident, $m:ident) => {
+        $v.push(IntOp { name: format!("{}::{}", stringify!($T), stringify!($m)), ty: TyId::$T, rhs_n: 0, lhs_scalar: false,
+            rhs_elem: <<$T as GlamTy>::E as Scalar>::KIND, is_shift: false, fold: None,
+            vec: |a, _| bits(&mk::<$T>(a).$m()),
+            prim: |a, _| (<<$T as GlamTy>::E>::from_bits64(a) as <$D as GlamTy>::E).to_bits64() });
+    };
+}
+/// reductions, judged against the left fold the documentation spells out (`x + y + z`, `x * x' + y * y' + ...`)
+macro_rules! reductions {
+    ($v:ident, $T:ident, $E:ty, $N:expr) => {
+        $v.push(IntOp { name: format!("{}::element_sum", stringify!($T)), ty: TyId::$T, rhs_n: 0, lhs_scalar: false,
+            rhs_elem: <$E as Scalar>::KIND, is_shift: false,
+            fold: Some(|a, _| { let e: Vec<$E> = a.iter().map(|x| <$E>::from_bits64(*x)).collect(); let mut s = e[0]; for x in &e[1..] { s = s + *x; } vec![s.to_bits64()] }),
+            vec: |a, _| vec![mk::<$T>(a).element_sum().to_bits64()], prim: |a, _| a });
+        $v.push(IntOp { name: format!("{}::element_product", stringify!($T)), ty: TyId::$T, rhs_n: 0, lhs_scalar: false,
+            rhs_elem: <$E as Scalar>::KIND, is_shift: false,
+            fold: Some(|a, _| { let e: Vec<$E> = a.iter().map(|x| <$E>::from_bits64(*x)).collect(); let mut s = e[0]; for x in &e[1..] { s = s * *x; } vec![s.to_bits64()] }),
+            vec: |a, _| vec![mk::<$T>(a).element_product().to_bits64()], prim: |a, _| a });
+        $v.push(IntOp { name: format!("{}::dot", stringify!($T)), ty: TyId::$T, rhs_n: $N, lhs_scalar: false,
+            rhs_elem: <$E as Scalar>::KIND, is_shift: false,
+            fold: Some(|a, b| { let mut s = <$E>::from_bits64(a[0]) * <$E>::from_bits64(b[0]); for i in 1..a.len() { s = s + <$E>::from_bits64(a[i]) * <$E>::from_bits64(b[i]); } vec![s.to_bits64()] }),
+            vec: |a, b| vec![mk::<$T>(a).dot(mk::<$T>(b)).to_bits64()], prim: |a, _| a });
+        $v.push(IntOp { name: format!("{}::length_squared", stringify!($T)), ty: TyId::$T, rhs_n: 0, lhs_scalar: false,
+            rhs_elem: <$E as Scalar>::KIND, is_shift: false,
+            fold: Some(|a, _| { let mut s = <$E>::from_bits64(a[0]) * <$E>::from_bits64(a[0]); for i in 1..a.len() { s = s + <$E>::from_bits64(a[i]) * <$E>::from_bits64(a[i]); } vec![s.to_bits64()] }),
+            vec: |a, _| vec![mk::<$T>(a).length_squared().to_bits64()], prim: |a, _| a });
+        $v.push(IntOp { name: format!("{}::manhattan_distance", stringify!($T)), ty: TyId::$T, rhs_n: $N, lhs_scalar: false,
+            rhs_elem: <$E as Scalar>::KIND, is_shift: false,
+            fold: Some(|a, b| { let mut s = <$E>::from_bits64(a[0]).abs_diff(<$E>::from_bits64(b[0])); for i in 1..a.len() { s = s + <$E>::from_bits64(a[i]).abs_diff(<$E>::from_bits64(b[i])); } vec![s.to_bits64()] }),
+            vec: |a, b| vec![mk::<$T>(a).manhattan_distance(mk::<$T>(b)).to_bits64()], prim: |a, _| a });
+        $v.push(IntOp { name: format!("{}::checked_manhattan_distance", stringify!($T)), ty: TyId::$T, rhs_n: $N, lhs_scalar: false,
+            rhs_elem: <$E as Scalar>::KIND, is_shift: false,
+            fold: Some(|a, b| { let mut s = <$E>::from_bits64(a[0]).abs_diff(<$E>::from_bits64(b[0])); for i in 1..a.len() { s = s.checked_add(<$E>::from_bits64(a[i]).abs_diff(<$E>::from_bits64(b[i]))).expect("checked operation returned None"); } vec![s.to_bits64()] }),
+            vec: |a, b| vec![mk::<$T>(a).checked_manhattan_distance(mk::<$T>(b)).expect("checked operation returned None").to_bits64()], prim: |a, _| a });
+        $v.push(IntOp { name: format!("{}::chebyshev_distance", stringify!($T)), ty: TyId::$T, rhs_n: $N, lhs_scalar: false,
+            rhs_elem: <$E as Scalar>::KIND, is_shift: false,
+            fold: Some(|a, b| { let mut s = <$E>::from_bits64(a[0]).abs_diff(<$E>::from_bits64(b[0])); for i in 1..a.len() { s = s.max(<$E>::from_bits64(a[i]).abs_diff(<$E>::from_bits64(b[i]))); } vec![s.to_bits64()] }),
+            vec: |a, b| vec![mk::<$T>(a).chebyshev_distance(mk::<$T>(b)).to_bits64()], prim: |a, _| a });
+    };
+}
+
+include!(env!("GLAMSIM_INT"));
 
 macro_rules! int_type {
     ($v:ident, $T:ident, $E:ty, $N:expr, signed=$s:tt) => {
@@ -96,19 +174,28 @@ macro_rules! int_type {
         shift!($v, $T, $E, $N, i8, i16, i32, i64, u8, u16, u32, u64);
         lane_method!($v, $T, $E, $N, wrapping_add, wrapping_sub, wrapping_mul, wrapping_div, saturating_add, saturating_sub, saturating_mul, saturating_div);
         checked_method!($v, $T, $E, $N, checked_add, checked_sub, checked_mul, checked_div);
+        reductions!($v, $T, $E, $N);
         int_type!(@signed $v, $T, $E, $N, $s);
     };
     (@signed $v:ident, $T:ident, $E:ty, $N:expr, y) => {
-        $v.push(IntOp { name: format!("{}::div_euclid", stringify!($T)), ty: TyId::$T, rhs_n: $N, lhs_scalar: false, rhs_elem: <$E as Scalar>::KIND, is_shift: false,
+        $v.push(IntOp { name: format!("{}::div_euclid", stringify!($T)), ty: TyId::$T, rhs_n: $N, lhs_scalar: false, rhs_elem: <$E as Scalar>::KIND, is_shift: false, fold: None,
             vec: |a, b| { let (x, y) = (mk::<$T>(a), mk::<$T>(b)); bits(&x.div_euclid(y)) },
             prim: |a, b| <$E>::from_bits64(a).div_euclid(<$E>::from_bits64(b)).to_bits64() });
-        $v.push(IntOp { name: format!("{}::rem_euclid", stringify!($T)), ty: TyId::$T, rhs_n: $N, lhs_scalar: false, rhs_elem: <$E as Scalar>::KIND, is_shift: false,
+        $v.push(IntOp { name: format!("{}::rem_euclid", stringify!($T)), ty: TyId::$T, rhs_n: $N, lhs_scalar: false, rhs_elem: <$E as Scalar>::KIND, is_shift: false, fold: None,
             vec: |a, b| { let (x, y) = (mk::<$T>(a), mk::<$T>(b)); bits(&x.rem_euclid(y)) },
             prim: |a, b| <$E>::from_bits64(a).rem_euclid(<$E>::from_bits64(b)).to_bits64() });
-        $v.push(IntOp { name: format!("<{} as Neg>::neg", stringify!($T)), ty: TyId::$T, rhs_n: 0, lhs_scalar: false, rhs_elem: <$E as Scalar>::KIND, is_shift: false,
+        $v.push(IntOp { name: format!("{}::signum", stringify!($T)), ty: TyId::$T, rhs_n: 0, lhs_scalar: false,
+            rhs_elem: <$E as Scalar>::KIND, is_shift: false, fold: None,
+            vec: |a, _| { let x = mk::<$T>(a); bits(&x.signum()) },
+            prim: |a, _| <$E>::from_bits64(a).signum().to_bits64() });
+        $v.push(IntOp { name: format!("{}::distance_squared", stringify!($T)), ty: TyId::$T, rhs_n: $N, lhs_scalar: false,
+            rhs_elem: <$E as Scalar>::KIND, is_shift: false,
+            fold: Some(|a, b| { let d: Vec<$E> = (0..a.len()).map(|i| <$E>::from_bits64(a[i]) - <$E>::from_bits64(b[i])).collect(); let mut s = d[0] * d[0]; for x in &d[1..] { s = s + *x * *x; } vec![s.to_bits64()] }),
+            vec: |a, b| vec![mk::<$T>(a).distance_squared(mk::<$T>(b)).to_bits64()], prim: |a, _| a });
+        $v.push(IntOp { name: format!("<{} as Neg>::neg", stringify!($T)), ty: TyId::$T, rhs_n: 0, lhs_scalar: false, rhs_elem: <$E as Scalar>::KIND, is_shift: false, fold: None,
             vec: |a, _| { let x = mk::<$T>(a); bits(&(-x)) },
             prim: |a, _| (-<$E>::from_bits64(a)).to_bits64() });
-        $v.push(IntOp { name: format!("{}::abs", stringify!($T)), ty: TyId::$T, rhs_n: 0, lhs_scalar: false, rhs_elem: <$E as Scalar>::KIND, is_shift: false,
+        $v.push(IntOp { name: format!("{}::abs", stringify!($T)), ty: TyId::$T, rhs_n: 0, lhs_scalar: false, rhs_elem: <$E as Scalar>::KIND, is_shift: false, fold: None,
             vec: |a, _| { let x = mk::<$T>(a); bits(&x.abs()) },
             prim: |a, _| <$E>::from_bits64(a).abs().to_bits64() });
     };
@@ -159,6 +246,7 @@ pub fn int_ops() -> Vec<IntOp> {
     int_type!(v, USizeVec2, usize, 2, signed = n);
     int_type!(v, USizeVec3, usize, 3, signed = n);
     int_type!(v, USizeVec4, usize, 4, signed = n);
+    generated_int_ops(&mut v);
     v
 }
 
@@ -187,10 +275,16 @@ fn render(e: Elem, b: &[u64]) -> String {
 pub fn judge(op: &IntOp, a: &[u64], b: &[u64]) -> (Option<(String, String)>, bool) {
     let n = op.ty.n();
     let e = op.ty.elem();
-    // reference: the primitive, lane by lane, in this build
+    // reference: the primitive, lane by lane (or the documented fold for reductions), in this build
     let mut want = Vec::with_capacity(n);
     let mut prim_panics = None;
-    for l in 0..n {
+    if let Some(fold) = op.fold {
+        match util::catch(|| fold(a, b)) {
+            Ok(r) => want = r,
+            Err(p) => prim_panics = Some((0, p.msg)),
+        }
+    }
+    for l in 0..if op.fold.is_some() { 0 } else { n } {
         let x = if op.lhs_scalar { a[0] } else { a[l] };
         let y = match op.rhs_n {
             0 => 0,
